@@ -14,12 +14,13 @@ pub static PROP: Prop = Prop {
     id: "C06",
     title: "Finite functions form a category with coproducts and coequalizers",
     check,
-    max_tape: (60, 110),
+    max_tape: (200, 260),
     cases: (600_000, 6_000_000),
     both_profiles: false,
     rule: "tables of length 0..8 (thorough 0..14) over codomains 0..8, parallel / composable / non-composable pairs, (sizes, index map) pairs, (surjection, labels) pairs consistent or inconsistent on fibres; one operation group per case, compared with explicit loops on Vec<usize>; non-trivial = source >= 2 (for coequalizers additionally >= 1 pair with f(i) != g(i) and >= 2 resulting classes); distinct = hash of the generated data",
     assumptions: &["SemifiniteArrow's todo!() coproduct methods and its Identity variant are outside the statement and not exercised"],
     fixed: None,
+    scale: Some(super::scale::c06),
 };
 
 type FF = sv::FF;
@@ -271,6 +272,9 @@ fn injections(t: &mut Tape, ctx: &mut Ctx, maxlen: usize) -> CheckResult {
 
 fn coequalizer(t: &mut Tape, ctx: &mut Ctx, maxlen: usize, maxcod: usize) -> CheckResult {
     ctx.class("group:coequalizer");
+    if t.weighted(&[6, 1]) == 1 {
+        return coequalizer_tournament(t, ctx);
+    }
     let b = t.range(0, maxcod + 2);
     let f = table(t, maxlen, b);
     let parallel = !t.chance(1, 6);
@@ -323,6 +327,34 @@ fn coequalizer(t: &mut Tape, ctx: &mut Ctx, maxlen: usize, maxcod: usize) -> Che
         if ctx.want_sample {
             ctx.sample = Some(format!("coequalizer: {} => q = {:?} -> {}", ctx.dump, qt, k));
         }
+    }
+    Ok(())
+}
+
+/// balanced merge orders over 8..64 elements (deep union-by-rank forests)
+fn coequalizer_tournament(t: &mut Tape, ctx: &mut Ctx) -> CheckResult {
+    ctx.class("tournament");
+    let k = t.range(3, 6);
+        let (n0, pairs) = crate::gen::tournament_pairs(t, k);
+    let b = n0 + t.choice(3);
+    let keep = pairs.len().saturating_sub(t.choice(3));
+    let f: Vec<usize> = pairs[..keep].iter().map(|p| p.0).collect();
+    let g: Vec<usize> = pairs[..keep].iter().map(|p| p.1).collect();
+    ctx.set_dump(format!("f = {:?} -> {} ; g = {:?} -> {}", f, b, g, b));
+    ctx.sub("coequalizer");
+    let q = sv::ff(f.clone(), b).coequalizer(&sv::ff(g.clone(), b)).ok_or_else(|| ctx.fail("coequalizer", "coequalizer of a parallel pair is None"))?;
+    let qt = tb(&q);
+    let (want, wk) = partition_of_pairs(b, &pairs[..keep]);
+    ensure!(ctx, qt.len() == b && canon_partition(&qt) == want && q.target == wk, "coequalizer", "coequalizer partition {:?} ({} classes) differs from the connected components {:?} ({} classes)", qt, q.target, want, wk);
+    let mut hit = vec![false; q.target];
+    for &c in &qt {
+        ensure!(ctx, c < q.target, "coequalizer", "class {c} >= {}", q.target);
+        hit[c] = true;
+    }
+    ensure!(ctx, hit.iter().all(|&h| h), "coequalizer", "coequalizer is not surjective");
+    ctx.nontrivial(&("tournament", &f, &g, b));
+    if ctx.want_sample {
+        ctx.sample = Some(format!("coequalizer (tournament order): {}", ctx.dump));
     }
     Ok(())
 }
